@@ -3,7 +3,29 @@
 // Contracts for package templater (HTTP scenario text templater), checked by /verif/govc. Comment-only: no code.
 package templater
 
+// (this package imports both text/template and html/template under the name "template")
+//@ use template "text/template"
+
 //@ func NewTextTemplater
 //@ props C13 C15
 //@ modifies nothing
 //@ ensures result != nil
+
+//@ func (t *TextTemplater) getTemplate
+//@ props C11 C15
+//@ nilsafe
+//@ env [the-cache-holds-templates] pooltype(t.templatesCache, *template.Template)
+//@ modifies nothing
+//@ ensures iff(result1 == nil, result0 != nil)
+//@ at call template.New assert [one-template-per-scenario-step-and-part] arg(a0) == result_of(fmt.Sprintf, 0)
+
+// Rendering writes only into the request parts it is given (the gun passes private copies of the step's headers and body).
+//@ func (t *TextTemplater) Apply
+//@ props C11 C15
+//@ nilsafe
+//@ requires parts != nil
+//@ loop 0 invariant tmpl != nil && strBuilder != nil && fresh(strBuilder)
+//@ at call t.getTemplate#0 assert [url-template] arg(tmplBody) == parts.URL && arg(scenarioName) == scenarioName0 && arg(stepName) == stepName0
+//@ at call t.getTemplate#1 assert [header-template] arg(tmplBody) == v && arg(key) == k
+//@ at call tmpl.Execute assert [variables-of-this-shot] arg(a1) == box(vs)
+//@ modifies parts.URL, parts.Body, elems(parts.Headers)
